@@ -142,6 +142,10 @@ public:
         {
             _settings._dim.y = _info._height;
         }
+
+        _settings.check_region( static_cast< std::ptrdiff_t >( _info._width  )
+                              , static_cast< std::ptrdiff_t >( _info._height )
+                              );
     }
 
     /// Read image header.
